@@ -20,3 +20,7 @@ open IrVerif.Path
 #print axioms C10_fuel_discharged
 #print axioms C10_zero_size
 #print axioms C10_world_safe
+#print axioms C10_eloop_counts_all_links
+#print axioms C10_world_chdir_opens
+#print axioms C10_bytes_location
+#print axioms C10_pathmax_verified_partial
